@@ -2,10 +2,12 @@ package kapacitor
 
 import (
 	"bufio"
+	"bytes"
 	"encoding/json"
 	"fmt"
 	"io"
 	"math"
+	"strings"
 	"time"
 
 	dbmodels "github.com/influxdata/influxdb/models"
@@ -71,6 +73,17 @@ func replayStreamFromChan(clck clock.Clock, points <-chan edge.PointMessage, col
 	return nil
 }
 
+// scanNewLines is a split function for a Scanner that returns each line of text, stripped of the trailing new line only.
+func scanNewLines(data []byte, atEOF bool) (advance int, token []byte, err error) {
+	if i := bytes.IndexByte(data, '\n'); i >= 0 {
+		return i + 1, data[:i], nil
+	}
+	if atEOF && len(data) > 0 {
+		return len(data), data, nil
+	}
+	return 0, nil, nil
+}
+
 func readPointsFromIO(data io.ReadCloser, points chan<- edge.PointMessage, precision string) error {
 	defer data.Close()
 	defer close(points)
@@ -80,12 +93,14 @@ func readPointsFromIO(data io.ReadCloser, points chan<- edge.PointMessage, preci
 	in := bufio.NewScanner(data)
 	// A point is as long as its fields are, do not limit the length of a line.
 	in.Buffer(make([]byte, 0, bufio.MaxScanTokenSize), math.MaxInt32)
+	// Lines end with a new line only, a carriage return before it belongs to the data of a string field.
+	in.Split(scanNewLines)
 	for in.Scan() {
-		db := in.Text()
+		db := strings.TrimSuffix(in.Text(), "\r")
 		if !in.Scan() {
 			return fmt.Errorf("invalid replay file format, expected another line")
 		}
-		rp := in.Text()
+		rp := strings.TrimSuffix(in.Text(), "\r")
 		if !in.Scan() {
 			return fmt.Errorf("invalid replay file format, expected another line")
 		}
